@@ -14,7 +14,7 @@ text, export values and limits parsed from the bundled templates by hv.pdfread. 
   excl     within a group of exclusive boxes at most one is on, for every value of the driving line
   fileable every form that can require filing has a readable template and at least one mapping
 """
-import functools, itertools, os, re
+import functools, os, re
 import hv
 from hv import runner, pdfread
 
@@ -315,7 +315,7 @@ def run(tier):
                 for s in r['samples']:
                     run.sample(s, cap=8)
                 p = make(C, inst).pdf_file()
-                if p:
+                if p and os.path.isfile(p) and not any(kind == 'fileable' for _, _, kind, _ in r['viol']):
                     paths.add(p)
                 fname = C.form_name if inst is None else f'{C.form_name}:{inst}'
                 for k, pf, kind, what in r['viol']:
